@@ -97,6 +97,9 @@ def test_corpus(repo=None):
     return out
 
 
+REJECT_IS_VIOLATION = True    # quick tier (the thorough families were not all enumerated against the unchanged tree: there a rejection is only counted)
+
+
 def run_text_shapes(chk, gen, runner, shapes, judge, stats, config=None, symbolic=None):
     """shapes: iterable of (sig_prefix, text, info).  For each: native front end -> IR -> real generator MIR in mirsym ->
     judge(items, info, chk, pc, syms) -> [(oracle, message)].  Failures are confirmed through the natively compiled
@@ -116,6 +119,11 @@ def run_text_shapes(chk, gen, runner, shapes, judge, stats, config=None, symboli
             info_rej = getattr(judge, 'on_reject', None)
             if info_rej:
                 info_rej(chk, sigp, text, info, ra)
+            elif REJECT_IS_VIOLATION:
+                # every shape of every family is valid notation that the unchanged compiler accepts (harnesses with a documented
+                # gap install on_reject): a shape that is now refused means its definitions are not generated at all
+                e = ra.get('error') or {}
+                chk.violation(sigp + ' rejected', f"valid notation is rejected ({str(e.get('display'))[:100]}): {text}", {'kind': 'text', 'text': text, 'config': config})
             continue
         stats['shapes'] = stats.get('shapes', 0) + 1
         on_leaf = None
